@@ -82,6 +82,11 @@ def run(v):
                     "c09_mc_acc", workers=4, timeout=900, coverage=False)
     if ra.violated != "LastWordUnlessOverlapped":
         raise common.ToolError("MC_LspServer: the accumulating-identifiers deviation is not refuted (vacuous invariant)")
+    # a seeded deviation: the announcement rebuilds the linters only if the server's copy of the settings changes
+    ro = common.tlc(os.path.join(SPEC, "mc", "MC_LspServer.tla"), os.path.join(SPEC, "mc", "MC_LspServer_dev_onlyifchanged.cfg"),
+                    "c09_mc_oic", workers=4, timeout=900, coverage=False)
+    if ro.violated != "LastWordUnlessOverlapped":
+        raise common.ToolError("MC_LspServer: the rebuild-only-if-changed deviation is not refuted (vacuous invariant)")
     # liveness: the server always comes to rest (weak fairness of handler steps, no state constraint)
     rl = common.tlc(os.path.join(SPEC, "mc", "MC_LspServer.tla"), os.path.join(SPEC, "mc", "MC_LspServer_live.cfg"),
                     "c09_mc_live", workers=8, timeout=1800, coverage=False)
